@@ -7,10 +7,10 @@ generated grammar.
 namespace Sv
 
 /-- The leaf ranges follow one another from `p` to `q` without gap or overlap, none is empty, and each
-    carries the line `1 + #newlines before it`. -/
+    carries the line `1 + #newlines before it`; every leaf lies inside the text. -/
 def Chain (inp : Input) : Nat → List (Nat × Nat × Nat) → Nat → Prop
   | p, [], q => p = q
-  | p, (o, l, n) :: ls, q => o = p ∧ 0 < l ∧ n = lineAt inp o ∧ Chain inp (p + l) ls q
+  | p, (o, l, n) :: ls, q => o = p ∧ 0 < l ∧ o + l ≤ inp.size ∧ n = lineAt inp o ∧ Chain inp (p + l) ls q
 
 def TilesF (inp : Input) (p : Nat) (ts : List Tree) (q : Nat) : Prop := Chain inp p (leavesL ts) q
 
@@ -122,7 +122,7 @@ theorem Chain.append {inp : Input} {p m q : Nat} {a b : List (Nat × Nat × Nat)
   | cons x xs ih =>
     obtain ⟨o, l, n⟩ := x
     simp only [Chain, List.cons_append] at h1 ⊢
-    exact ⟨h1.1, h1.2.1, h1.2.2.1, ih h1.2.2.2⟩
+    exact ⟨h1.1, h1.2.1, h1.2.2.1, h1.2.2.2.1, ih h1.2.2.2.2⟩
 
 theorem Chain.split {inp : Input} {p q : Nat} {a b : List (Nat × Nat × Nat)}
     (h : Chain inp p (a ++ b) q) : ∃ m, Chain inp p a m ∧ Chain inp m b q := by
@@ -131,8 +131,8 @@ theorem Chain.split {inp : Input} {p q : Nat} {a b : List (Nat × Nat × Nat)}
   | cons x xs ih =>
     obtain ⟨o, l, n⟩ := x
     simp only [Chain, List.cons_append] at h
-    obtain ⟨m, h1, h2⟩ := ih h.2.2.2
-    exact ⟨m, ⟨h.1, h.2.1, h.2.2.1, h1⟩, h2⟩
+    obtain ⟨m, h1, h2⟩ := ih h.2.2.2.2
+    exact ⟨m, ⟨h.1, h.2.1, h.2.2.1, h.2.2.2.1, h1⟩, h2⟩
 
 theorem Chain.le {inp : Input} {p q : Nat} {a : List (Nat × Nat × Nat)} (h : Chain inp p a q) : p ≤ q := by
   induction a generalizing p with
@@ -140,7 +140,7 @@ theorem Chain.le {inp : Input} {p q : Nat} {a : List (Nat × Nat × Nat)} (h : C
   | cons x xs ih =>
     obtain ⟨o, l, n⟩ := x
     simp only [Chain] at h
-    have := ih h.2.2.2
+    have := ih h.2.2.2.2
     omega
 
 theorem Chain.nil_iff {inp : Input} {p q : Nat} : Chain inp p [] q ↔ p = q := by simp [Chain]
@@ -162,13 +162,31 @@ theorem Chain.end_eq {inp : Input} {p q : Nat} {a : List (Nat × Nat × Nat)} (h
   | cons x xs ih =>
     obtain ⟨o, l, n⟩ := x
     simp only [Chain] at h
-    have := ih h.2.2.2
+    have := ih h.2.2.2.2
     simp [sumLen]; omega
 
 theorem leavesL_append' (a b : List Tree) : leavesL (a ++ b) = leavesL a ++ leavesL b := by
   induction a with
   | nil => simp [leavesL]
   | cons t ts ih => simp [leavesL, ih, List.append_assoc]
+
+/-- a non-empty chain ends inside the text -/
+theorem Chain.end_le {inp : Input} {p q : Nat} {a : List (Nat × Nat × Nat)} (h : Chain inp p a q)
+    (hne : a ≠ []) : q ≤ inp.size := by
+  induction a generalizing p with
+  | nil => exact absurd rfl hne
+  | cons x xs ih =>
+    obtain ⟨o, l, n⟩ := x
+    simp only [Chain] at h
+    cases xs with
+    | nil => simp only [Chain] at h; omega
+    | cons y ys => exact ih h.2.2.2.2 (by simp)
+
+theorem Chain.end_le' {inp : Input} {p q : Nat} {a : List (Nat × Nat × Nat)} (h : Chain inp p a q)
+    (hp : p ≤ inp.size) : q ≤ inp.size := by
+  cases a with
+  | nil => simp [Chain] at h; omega
+  | cons x xs => exact h.end_le (by simp)
 
 /-- merging the leaves of a tiling forest gives a tiling forest -/
 theorem tiles_merge {inp : Input} {p q : Nat} {ts : List Tree} (h : TilesF inp p ts q) :
@@ -181,10 +199,11 @@ theorem tiles_merge {inp : Input} {p q : Nat} {ts : List Tree} (h : TilesF inp p
     obtain ⟨o, l, n⟩ := x
     rw [hl] at h
     have he := Chain.end_eq h
+    have hle := Chain.end_le h (by simp)
     simp only [Chain] at h
     simp only [leavesL, leaves, List.append_nil, Chain, foldl_len]
-    refine ⟨h.1, by omega, h.2.2.1, ?_⟩
     simp [sumLen] at he
+    refine ⟨h.1, by omega, by omega, h.2.2.2.1, ?_⟩
     omega
 
 theorem tilesF_append {inp : Input} {p m q : Nat} {a b : List Tree}
